@@ -80,6 +80,8 @@ pub struct Args {
     pub out: Option<PathBuf>,
     pub known: HashSet<String>,
     pub replay: Option<PathBuf>,
+    /// when set, every case is written here before it is executed (crash forensics)
+    pub journal: Option<PathBuf>,
     pub extra: Vec<String>,
 }
 
@@ -98,6 +100,7 @@ impl Args {
             out: None,
             known: HashSet::new(),
             replay: None,
+            journal: None,
             extra: Vec::new(),
         };
         while let Some(x) = it.next() {
@@ -118,6 +121,7 @@ impl Args {
                     }
                 }
                 "--replay" => a.replay = Some(it.next().unwrap().into()),
+                "--journal" => a.journal = Some(it.next().unwrap().into()),
                 _ => a.extra.push(x),
             }
         }
@@ -128,6 +132,7 @@ impl Args {
 #[derive(Default)]
 struct Inner {
     evaluations: u64,
+    bulk_nontrivial: u64,
     nontrivial: HashSet<u64>,
     classes: BTreeMap<String, u64>,
     samples_first: Vec<Value>,
@@ -143,6 +148,7 @@ pub struct Ctx {
     pub args: Args,
     inner: Mutex<Inner>,
     replay_case: Option<(String, Value)>,
+    journal: Option<Mutex<std::fs::File>>,
     start: std::time::Instant,
 }
 
@@ -169,7 +175,12 @@ impl Ctx {
                 v["case"].clone(),
             )
         });
+        let journal = args
+            .journal
+            .as_ref()
+            .map(|p| Mutex::new(std::fs::File::create(p).expect("cannot create journal")));
         Ctx {
+            journal,
             args,
             inner: Mutex::new(Inner::default()),
             replay_case,
@@ -213,6 +224,20 @@ impl Ctx {
         self.inner.lock().unwrap().notes.push(s.into());
     }
 
+    fn journal<T: Serialize>(&self, sub: &str, case: &T) {
+        if let Some(j) = &self.journal {
+            use std::io::{Seek, Write};
+            let _g = crate::alloc::Exempt::new();
+            let txt = serde_json::to_string(&json!({"property": self.args.prop, "sub": sub, "seed": self.args.seed, "case": case}))
+                .unwrap_or_default();
+            let mut f = j.lock().unwrap();
+            let _ = f.seek(std::io::SeekFrom::Start(0));
+            let _ = f.set_len(0);
+            let _ = f.write_all(txt.as_bytes());
+            let _ = f.flush();
+        }
+    }
+
     fn record_pass(&self, sub: &str, case_json: &dyn Fn() -> Value, digest: u64, info: Info) {
         let _g = crate::alloc::Exempt::new();
         let mut i = self.inner.lock().unwrap();
@@ -242,6 +267,46 @@ impl Ctx {
         }
     }
 
+    /// Account for an exhaustive sweep whose cases are distinct by construction (enumerated, not
+    /// sampled): `evals` cases were executed and passed, `nontrivial` of them satisfy the rule.
+    pub fn bulk(&self, sub: &str, evals: u64, nontrivial: u64, classes: &[(&str, u64)], samples: Vec<Value>) {
+        let _g = crate::alloc::Exempt::new();
+        let mut i = self.inner.lock().unwrap();
+        if i.frozen {
+            return;
+        }
+        i.evaluations += evals;
+        i.bulk_nontrivial += nontrivial;
+        *i.classes.entry(format!("{sub}:cases")).or_insert(0) += evals;
+        *i.classes.entry(format!("{sub}:nontrivial")).or_insert(0) += nontrivial;
+        for (c, n) in classes {
+            *i.classes.entry(format!("{sub}:{c}")).or_insert(0) += n;
+        }
+        for smp in samples.into_iter().take(3) {
+            if i.samples_first.len() < 12 {
+                i.samples_first.push(json!({"sub": sub, "case": clip(smp)}));
+            }
+        }
+    }
+
+    /// Report a violation found outside `run`/`eval` (exhaustive sweeps).
+    pub fn violation<T: Serialize>(&self, sub: &str, case: &T, f: Fail) {
+        self.record_violation(sub, serde_json::to_value(case).unwrap_or(Value::Null), &f);
+        self.inner.lock().unwrap().frozen = true;
+    }
+
+    pub fn failed(&self) -> bool {
+        self.inner.lock().unwrap().frozen
+    }
+
+    /// The replay case if it belongs to sub-check `sub`.
+    pub fn replay_for<T: DeserializeOwned>(&self, sub: &str) -> Option<T> {
+        match &self.replay_case {
+            Some((s, c)) if s == sub => serde_json::from_value(c.clone()).ok(),
+            _ => None,
+        }
+    }
+
     fn record_violation(&self, sub: &str, case: Value, f: &Fail) {
         let _g = crate::alloc::Exempt::new();
         let mut i = self.inner.lock().unwrap();
@@ -251,6 +316,7 @@ impl Ctx {
 
     /// Run one explicit case (used by exhaustive enumerations and by replay).
     pub fn eval<T: Serialize>(&self, sub: &str, case: &T, f: impl FnOnce(&T) -> CaseResult) -> bool {
+        self.journal(sub, case);
         let r = guard(|| f(case));
         match r {
             Ok(info) => {
@@ -271,6 +337,7 @@ impl Ctx {
                 if first {
                     self.record_violation(sub, serde_json::to_value(case).unwrap_or(Value::Null), &fl);
                 }
+                self.inner.lock().unwrap().frozen = true;
                 false
             }
         }
@@ -297,12 +364,10 @@ impl Ctx {
             self.eval(sub, &v, |v| f(v));
             return;
         }
-        {
-            let i = self.inner.lock().unwrap();
-            if i.frozen {
-                // an earlier sub-check of this run already failed; counts stay frozen but we
-                // still run, to surface independent violations
-            }
+        if self.inner.lock().unwrap().frozen {
+            // an earlier sub-check of this run already produced a violation; stop here so that
+            // it is reported even if later sub-checks would crash the process
+            return;
         }
         let seed = crate::mix_seed(self.args.seed, &format!("{}/{}", self.args.prop, sub));
         let mut cfg = Config::default();
@@ -317,6 +382,7 @@ impl Ctx {
         let failing = Mutex::new(false);
         let last_fail: Mutex<Option<Fail>> = Mutex::new(None);
         let res = runner.run(&strat, |v| {
+            self.journal(sub, &v);
             let r = guard(|| f(&v));
             match r {
                 Ok(info) => {
@@ -372,7 +438,7 @@ impl Ctx {
             "seed": self.args.seed,
             "tier": if self.args.tier == Tier::Quick { "quick" } else { "thorough" },
             "evaluations": i.evaluations,
-            "distinct_nontrivial": i.nontrivial.len(),
+            "distinct_nontrivial": i.nontrivial.len() as u64 + i.bulk_nontrivial,
             "rule": rule,
             "samples": samples,
             "classes": i.classes,
